@@ -37,7 +37,7 @@ MINIMUMS = {
     'quick': {'evaluations': 1500, 'nodes_multi_path>=3': 100, 'tempbox_cases': 150,
               'control_id_reuse': 1, 'deep_chain_ok': 5, 'clone_cases': 100, 'edges_checked': 5000},
     'thorough': {'evaluations': 60000, 'nodes_multi_path>=3': 5000, 'tempbox_cases': 5000,
-                 'control_id_reuse': 1, 'deep_chain_ok': 20},
+                 'control_id_reuse': 1, 'deep_chain_ok': 5},
 }
 
 UID_FNS = [kinds.node, kinds.node2, kinds.posnode]
